@@ -500,6 +500,9 @@ def import_closure(repo, root_mod: str) -> set:
 # path evaluation of a dispatch function for one concrete subject value (R7, shape independent)
 # ---------------------------------------------------------------------------
 
+_FRESH = 0
+
+
 class _Subst(ast.NodeTransformer):
     def __init__(self, env):
         self.env = env
@@ -515,6 +518,39 @@ class _Subst(ast.NodeTransformer):
         node.body = inner.visit(node.body)
         return node
 
+    def _comp(self, node):
+        # names bound by the comprehension shadow the environment; a binder that occurs free in a value about to be substituted is renamed first
+        bound = {x.id for g in node.generators for x in ast.walk(g.target) if isinstance(x, ast.Name)}
+        used = {x.id for x in ast.walk(node) if isinstance(x, ast.Name) and isinstance(x.ctx, ast.Load)} - bound
+        incoming = set()
+        for k in used:
+            v = self.env.get(k)
+            if v is not None:
+                incoming |= {x.id for x in ast.walk(v) if isinstance(x, ast.Name)}
+        clash = bound & incoming
+        if clash:
+            global _FRESH
+            _FRESH += 1
+            ren = {b: f'{b}__r{_FRESH}' for b in clash}
+            for x in ast.walk(node):
+                if isinstance(x, ast.Name) and x.id in ren:
+                    x.id = ren[x.id]
+            bound = {ren.get(b, b) for b in bound}
+        inner = _Subst({k: v for k, v in self.env.items() if k not in bound})
+        # the first iterable is evaluated outside the comprehension's scope, everything else inside
+        node.generators[0].iter = self.visit(node.generators[0].iter)
+        for i, g in enumerate(node.generators):
+            if i:
+                g.iter = inner.visit(g.iter)
+            g.ifs = [inner.visit(c) for c in g.ifs]
+        if isinstance(node, ast.DictComp):
+            node.key, node.value = inner.visit(node.key), inner.visit(node.value)
+        else:
+            node.elt = inner.visit(node.elt)
+        return node
+
+    visit_ListComp = visit_SetComp = visit_GeneratorExp = visit_DictComp = _comp
+
 
 def _collection_literals(e, module):
     """python set of str constants for a literal collection / frozenset(literal) / module-level name bound to one; else None"""
@@ -529,6 +565,161 @@ def _collection_literals(e, module):
     if isinstance(e, ast.Dict) and all(isinstance(k, ast.Constant) for k in e.keys):
         return {k.value for k in e.keys}
     return None
+
+
+class _Table:
+    """a module-level dispatch table seen from a path: values are evaluated on demand"""
+
+    def __init__(self, table, pe):
+        self.table, self.pe = table, pe
+
+    def __contains__(self, k):
+        return k in self.table
+
+    def __getitem__(self, k):
+        return self.pe.const(self.table[k])
+
+    def __bool__(self):
+        return bool(self.table)
+
+    def __len__(self):
+        return len(self.table)
+
+
+class FnVal:
+    """a function value known on the path: a lambda, or a name bound to a function of the module / an import"""
+
+    def __init__(self, node):
+        self.node = node
+
+    def __eq__(self, other):
+        return isinstance(other, FnVal) and ast.dump(self.node) == ast.dump(other.node)
+
+    def __hash__(self):
+        return hash(ast.dump(self.node))
+
+
+def module_dict(name: str, module) -> dict | None:
+    """{concrete key: value node} of a module-level dispatch table: a dict literal (with `**{k: v for k in CONST}` / `**OTHER` parts) bound once at
+    module level, extended only by module-level `NAME.update({...})`, `NAME.update(dict.fromkeys(CONST, v))` or `NAME[const] = v`; None when the
+    name is anything else or some function mutates it"""
+    cache = module.__dict__.setdefault('_module_dicts', {})
+    if name in cache:
+        return cache[name]
+    cache[name] = None
+    vals = module.assigns.get(name) or []
+    if len(vals) != 1 or module.rebinds_global(name):
+        return None
+
+    def literal(e):
+        if isinstance(e, ast.Name) and e.id != name:
+            return module_dict(e.id, module)
+        if isinstance(e, ast.DictComp) and len(e.generators) == 1 and not e.generators[0].ifs and isinstance(e.generators[0].target, ast.Name):
+            keys = _ordered_literals(e.generators[0].iter, module)
+            if keys is None:
+                return None
+            out = {}
+            var = e.generators[0].target.id
+            for k in keys:
+                kn = _Subst({var: ast.Constant(k)}).visit(copy.deepcopy(e.key))
+                if not isinstance(kn, ast.Constant):
+                    return None
+                out[kn.value] = _Subst({var: ast.Constant(k)}).visit(copy.deepcopy(e.value))
+            return out
+        if isinstance(e, ast.Call) and isinstance(e.func, ast.Attribute) and e.func.attr == 'fromkeys' and isinstance(e.func.value, ast.Name) and e.func.value.id == 'dict' and 1 <= len(e.args) <= 2 and not e.keywords:
+            keys = _ordered_literals(e.args[0], module)
+            if keys is None:
+                return None
+            return {k: (e.args[1] if len(e.args) == 2 else ast.Constant(None)) for k in keys}
+        if isinstance(e, ast.Call) and isinstance(e.func, ast.Name) and e.func.id == 'dict' and len(e.args) <= 1 and all(k.arg for k in e.keywords):
+            out = {}
+            if e.args:
+                base = literal(e.args[0])
+                if base is None:
+                    return None
+                out.update(base)
+            out.update({k.arg: k.value for k in e.keywords})
+            return out
+        if not isinstance(e, ast.Dict):
+            return None
+        out = {}
+        for k, v in zip(e.keys, e.values):
+            if k is None:
+                part = literal(v)
+                if part is None:
+                    return None
+                out.update(part)
+            elif isinstance(k, ast.Constant):
+                out[k.value] = v
+            else:
+                return None
+        return out
+    table = literal(vals[0])
+    if table is None:
+        return None
+    # extensions at module level, in order; any other mutation anywhere makes the table unknown
+    top = set()
+    for st in module.tree.body:
+        if isinstance(st, ast.Expr) and isinstance(st.value, ast.Call) and isinstance(st.value.func, ast.Attribute) and isinstance(st.value.func.value, ast.Name) and st.value.func.value.id == name:
+            c = st.value
+            if c.func.attr == 'update' and len(c.args) == 1 and not c.keywords:
+                part = literal(c.args[0])
+                if part is None:
+                    return None
+                table.update(part)
+                top.add(c)
+                continue
+            return None
+        if isinstance(st, ast.Assign) and len(st.targets) == 1 and isinstance(st.targets[0], ast.Subscript) and isinstance(st.targets[0].value, ast.Name) and st.targets[0].value.id == name:
+            if isinstance(st.targets[0].slice, ast.Constant):
+                table[st.targets[0].slice.value] = st.value
+                top.add(st.targets[0])
+                continue
+            return None
+    for n in ast.walk(module.tree):
+        if isinstance(n, ast.Call) and isinstance(n.func, ast.Attribute) and isinstance(n.func.value, ast.Name) and n.func.value.id == name and n not in top \
+                and n.func.attr in ('update', 'pop', 'popitem', 'setdefault', 'clear', '__setitem__', '__delitem__'):
+            return None
+        if isinstance(n, ast.Subscript) and isinstance(n.value, ast.Name) and n.value.id == name and isinstance(n.ctx, (ast.Store, ast.Del)) and n not in top:
+            return None
+    cache[name] = table
+    return table
+
+
+def _ordered_literals(e, module):
+    """list of constants of a literal collection / module-level name bound to one (iteration order is irrelevant for a table of keys)"""
+    c = _collection_literals(e, module)
+    return sorted(c, key=repr) if c is not None else None
+
+
+class _Beta(ast.NodeTransformer):
+    """calls of a function value that is known on the path: a lambda is applied by substitution, a named function is called by its name"""
+
+    def __init__(self, pe):
+        self.pe = pe
+
+    def visit_Call(self, node):
+        self.generic_visit(node)
+        f = node.func
+        if isinstance(f, (ast.Name, ast.Attribute)):
+            return node
+        fv = None
+        if isinstance(f, ast.Lambda):
+            fv = FnVal(f)
+        elif isinstance(f, (ast.Call, ast.Subscript)):
+            try:
+                fv = self.pe.const(f)
+            except (KeyError, TypeError):
+                return node
+        if not isinstance(fv, FnVal):
+            return node
+        if isinstance(fv.node, ast.Lambda):
+            a = fv.node.args
+            if a.vararg or a.kwarg or a.kwonlyargs or a.defaults or a.posonlyargs or node.keywords or len(a.args) != len(node.args) or any(isinstance(x, ast.Starred) for x in node.args):
+                return node
+            return _Subst({p.arg: v for p, v in zip(a.args, node.args)}).visit(copy.deepcopy(fv.node.body))
+        node.func = copy.deepcopy(fv.node)
+        return node
 
 
 class PathResult:
@@ -563,6 +754,7 @@ class PathEval:
         self.env = {}
         self.stop_at = stop_at
         self.local_funcs = {}
+        self._fissioned = {}
 
     # -- tests ---------------------------------------------------------------
     def const(self, e):
@@ -579,9 +771,29 @@ class PathEval:
             vals = self.m.assigns.get(e.id) or []
             if len(vals) == 1 and isinstance(vals[0], ast.Constant) and not self.m.rebinds_global(e.id):
                 return vals[0].value
+        if isinstance(e, ast.Lambda):
+            return FnVal(e)
+        local = set(self.env) | set(self.fn.params)
+        if isinstance(e, ast.Name) and e.id in ('sum', 'min', 'max', 'len', 'sorted', 'any', 'all', 'abs', 'list', 'tuple', 'set', 'str', 'int', 'float') and e.id not in local and e.id not in self.m.funcs and e.id not in self.m.assigns:
+            return FnVal(e)      # a builtin used as a value
+        if isinstance(e, ast.Name) and (e.id in self.m.funcs or e.id in self.m.imports) and e.id not in local:
+            return FnVal(e)
+        if isinstance(e, ast.Attribute) and isinstance(e.value, ast.Name) and e.value.id in self.m.imports and e.value.id not in local:
+            return FnVal(e)
+        if isinstance(e, ast.Name) and e.id not in local:
+            table = module_dict(e.id, self.m)
+            if table is not None:
+                return _Table(table, self)
         coll = _collection_literals(e, self.m)
         if coll is not None:
             return coll
+        if isinstance(e, ast.Call) and isinstance(e.func, ast.Attribute) and not e.keywords and e.func.attr == 'get' and 1 <= len(e.args) <= 2:
+            base = self.const(e.func.value)
+            if isinstance(base, _Table):
+                k = self.const(e.args[0])
+                if k in base.table:
+                    return base[k]
+                return self.const(e.args[1]) if len(e.args) == 2 else None
         if isinstance(e, ast.Call) and isinstance(e.func, ast.Attribute) and not e.keywords:
             base = self.const(e.func.value)
             args = [self.const(a) for a in e.args]
@@ -646,7 +858,32 @@ class PathEval:
 
     # -- statements ----------------------------------------------------------
     def subst(self, e):
-        return ast.fix_missing_locations(_Subst(self.env).visit(copy.deepcopy(e)))
+        out = _Subst(self.env).visit(copy.deepcopy(e))
+        if any(isinstance(c, ast.Call) and not isinstance(c.func, (ast.Name, ast.Attribute)) for c in ast.walk(out)):
+            out = _Beta(self).visit(out)
+        if any(isinstance(c, ast.IfExp) for c in ast.walk(out)):
+            out = self._fold_ifexp(out)
+        return ast.fix_missing_locations(out)
+
+    def _fold_ifexp(self, e):
+        """conditional expressions whose test is decided by the concrete subject / constants alone (no assumption needed) are their chosen arm"""
+        pe = self
+
+        class F(ast.NodeTransformer):
+            def visit_IfExp(fself, node):
+                saved_other, saved_und = pe.other, getattr(pe, '_undecided', None)
+                pe.other = None
+                try:
+                    v = pe.truth(node.test)
+                finally:
+                    pe.other, pe._undecided = saved_other, saved_und
+                if v is None:
+                    return fself.generic_visit(node)
+                return fself.visit(node.body if v else node.orelse)
+
+            def visit_Lambda(fself, node):
+                return node
+        return F().visit(e)
 
     def _append_loop(self, s: ast.For) -> bool:
         """acc = []; for T in IT: [temps]; acc.append(E1); acc.append(E2)   ->   acc = [x for T in IT for x in (E1, E2)]
@@ -684,10 +921,42 @@ class PathEval:
                 if isinstance(b, ast.Expr) and isinstance(b.value, ast.Call) and isinstance(b.value.func, ast.Attribute) and b.value.func.attr == 'append' and isinstance(b.value.func.value, ast.Name) and len(b.value.args) == 1:
                     appends.append((b.value.func.value.id, sub(b.value.args[0]), guard))
                     continue
+                # acc.extend((E1, E2)) / acc += [E1, E2]: the literal's items appended in order
+                lit = None
+                if isinstance(b, ast.Expr) and isinstance(b.value, ast.Call) and isinstance(b.value.func, ast.Attribute) and b.value.func.attr == 'extend' and isinstance(b.value.func.value, ast.Name) and len(b.value.args) == 1 and not b.value.keywords:
+                    lit, accn = b.value.args[0], b.value.func.value.id
+                elif isinstance(b, ast.AugAssign) and isinstance(b.op, ast.Add) and isinstance(b.target, ast.Name):
+                    lit, accn = b.value, b.target.id
+                if lit is not None and isinstance(lit, (ast.Tuple, ast.List)) and lit.elts and not any(isinstance(x, ast.Starred) for x in lit.elts):
+                    for x in lit.elts:
+                        appends.append((accn, sub(x), guard))
+                    continue
+                if isinstance(b, ast.If) and guard is None:
+                    # a test decided on this path (concrete subject / constants): only the taken branch exists
+                    saved_other, saved_und = self.other, getattr(self, '_undecided', None)
+                    self.other = None
+                    try:
+                        tv = self.truth(sub(b.test))
+                    finally:
+                        self.other, self._undecided = saved_other, saved_und
+                    if tv is not None:
+                        if not walk(b.body if tv else b.orelse, guard):
+                            return False
+                        continue
                 if isinstance(b, ast.If) and not b.orelse and guard is None:
                     if not walk(b.body, sub(b.test)):
                         return False
                     continue
+                if isinstance(b, ast.If) and guard is None and len(b.body) == 1 and len(b.orelse) == 1:
+                    # if c: acc.append(A) else: acc.append(B)   ->   acc.append(A if c else B)
+                    def one(st):
+                        if isinstance(st, ast.Expr) and isinstance(st.value, ast.Call) and isinstance(st.value.func, ast.Attribute) and st.value.func.attr == 'append' and isinstance(st.value.func.value, ast.Name) and len(st.value.args) == 1 and not st.value.keywords:
+                            return st.value.func.value.id, st.value.args[0]
+                        return None
+                    x1, x2 = one(b.body[0]), one(b.orelse[0])
+                    if x1 and x2 and x1[0] == x2[0]:
+                        appends.append((x1[0], ast.fix_missing_locations(ast.IfExp(test=sub(b.test), body=sub(x1[1]), orelse=sub(x2[1]))), None))
+                        continue
                 return False
             return True
         ok = walk(s.body, None)
@@ -782,6 +1051,7 @@ class PathEval:
         # evaluate the statements that compute the value with a child evaluator (the candidate stays symbolic)
         child = PathEval(self.fn, self.pred, self.value, self.other)
         child.keep_ifexp = True
+        child.eval_closures = getattr(self, 'eval_closures', False)
         child.env.update({k: v for k, v in self.env.items() if k != f})
         child.local_funcs = dict(self.local_funcs)
         cres = child.run(body[:-1])
@@ -856,7 +1126,7 @@ class PathEval:
         class T(ast.NodeTransformer):
             def visit_Call(tself, node):
                 tself.generic_visit(node)
-                if not (isinstance(node.func, ast.Name) and not node.keywords and not any(isinstance(a, ast.Starred) for a in node.args)):
+                if not (isinstance(node.func, ast.Name) and all(k.arg for k in node.keywords) and not any(isinstance(a, ast.Starred) for a in node.args)):
                     return node
                 callee = None
                 q = self.fn.qualname
@@ -871,10 +1141,32 @@ class PathEval:
                     cand = self.m.funcs.get(node.func.id)
                     if cand is not None and base is not None and node.func.id not in base.get(self.m.name, set()) and cand.cls is None:
                         callee = cand
-                if callee is None or callee is self.fn or len(callee.params) != len(node.args):
+                if callee is None or callee is self.fn or len(callee.params) < len(node.args):
                     return node
+                # positional, keyword and default (constant) arguments
+                a_ = callee.node.args
+                if a_.vararg or a_.kwarg or a_.kwonlyargs:
+                    return node
+                given = bind_args(node, callee)
+                if set(given) - set(callee.params):
+                    return node
+                dflt = dict(zip(callee.params[len(callee.params) - len(a_.defaults):], a_.defaults))
+                for p_ in callee.params:
+                    if p_ not in given:
+                        if p_ in dflt and isinstance(dflt[p_], ast.Constant):
+                            given[p_] = dflt[p_]
+                        else:
+                            return node
+                # the callee runs over placeholders for its parameters; the arguments are put in afterwards (capture-avoiding: the callee's own
+                # loop / comprehension variables may be spelled like names of the caller)
                 env0 = {k: v for k, v in self.env.items() if k not in callee.params}
-                env0.update(dict(zip(callee.params, [copy.deepcopy(a) for a in node.args])))
+                holders = {p_: f'__arg_{p_}__' for p_ in callee.params}
+                actual = {holders[k]: copy.deepcopy(v) for k, v in given.items()}
+                consts = {k for k, v in given.items() if isinstance(v, ast.Constant)}
+                env0.update({k: (copy.deepcopy(given[k]) if k in consts else ast.Name(holders[k], ast.Load())) for k in given})
+
+                def back(x):
+                    return ast.fix_missing_locations(_Subst(actual).visit(copy.deepcopy(x))) if x is not None else None
                 paths = run_paths(callee, self.pred, self.value, max_forks=2, env=env0, eval_closures=True)
                 if not paths:
                     return node
@@ -886,7 +1178,7 @@ class PathEval:
                     res = paths[0][1]
                     if res.unknown is not None or res.returned is None or res.updates or res.calls or res.raised is not None:
                         return node
-                    return res.returned
+                    return back(res.returned)
                 if any(r.unknown is not None for _, r in paths):
                     return node
                 # a memoising helper: `if key not in CACHE: CACHE[key] = VALUE` ... `return CACHE[key]`: the call denotes VALUE
@@ -898,7 +1190,7 @@ class PathEval:
                         ret = filled[0][0].returned
                         if isinstance(ret, ast.Subscript) and ast.unparse(ret.value) == ast.unparse(u['target']) and ast.unparse(ret.slice) == ast.unparse(u['key']):
                             self.res.memo_calls.append((callee.qualname, ast.unparse(u['target'])))
-                            return u['value']
+                            return back(u['value'])
                 return node
         return ast.fix_missing_locations(T().visit(copy.deepcopy(e)))
 
@@ -1073,6 +1365,59 @@ class PathEval:
         self.env.update(saved)
         if not ok or not effects:
             return False
+        tvars = set(tnames)
+
+        def roots(e):
+            return {x.id for x in ast.walk(e) if isinstance(x, ast.Name)} if e is not None else set()
+
+        def mentions(e, names):
+            return any(roots(x) & names for x in [e.get('key'), e.get('value'), e.get('guard'), *e.get('args', [])] if x is not None)
+        # loop fission: `acc.append(f(T))` on a list that is empty before the loop, where f reads nothing the other effects of the loop write and
+        # nothing else in the loop reads acc, is the comprehension acc = [f(T) for T in IT if guard]; the remaining effects keep their order
+        written = {}
+        for e in effects:
+            r = e['target']
+            while isinstance(r, (ast.Subscript, ast.Attribute)):
+                r = r.value
+            if isinstance(r, ast.Name):
+                written.setdefault(r.id, []).append(e)
+        fission = []
+        for acc, es in written.items():
+            cur = saved.get(acc)
+            empty = (isinstance(cur, ast.List) and not cur.elts) or (isinstance(cur, ast.Call) and isinstance(cur.func, ast.Name) and cur.func.id == 'list' and not cur.args and not cur.keywords)
+            if not empty or len(es) != 1 or len(effects) < 2:
+                continue
+            e = es[0]
+            if e['op'] != 'call' or e['method'] != 'append' or len(e['args']) != 1 or e.get('inner') or not isinstance(e['target'], ast.Name):
+                continue
+            others = [o for o in effects if o is not e]
+            other_written = {k for k, v in written.items() if k != acc}
+            if roots(e['args'][0]) & other_written or (e['guard'] is not None and roots(e['guard']) & other_written):
+                continue
+            lazy = any(isinstance(x, ast.GeneratorExp) or (isinstance(x, ast.Call) and isinstance(x.func, ast.Name) and x.func.id in ('map', 'filter', 'zip', 'enumerate', 'reversed', 'iter')) for x in ast.walk(it)) \
+                and not (isinstance(it, ast.Subscript) or (isinstance(it, ast.Call) and isinstance(it.func, ast.Name) and it.func.id in ('sorted', 'list', 'tuple', 'set')))
+            if lazy and roots(it) & other_written:
+                continue      # a lazily evaluated iterable that reads what the loop writes: the two halves interact
+            if any(mentions(o, {acc}) for o in others):
+                continue
+            fission.append((acc, e))
+        for acc, e in fission:
+            effects.remove(e)
+            comp = ast.ListComp(elt=e['args'][0], generators=[ast.comprehension(target=copy.deepcopy(s.target), iter=copy.deepcopy(it), ifs=[e['guard']] if e['guard'] is not None else [], is_async=0)])
+            comp = ast.fix_missing_locations(ast.copy_location(comp, s))
+            comp._seq = getattr(self, 'seq', 0)
+            self.env[acc] = comp
+            self._fissioned[acc] = comp
+        # an unguarded keyed store / increment whose value does not vary with the loop is one keyed update over the list of keys
+        for e in effects:
+            if e['op'] in ('store', 'inc') and e['guard'] is None and not e.get('inner') and e['key'] is not None and not (roots(e['value']) & tvars) and not (roots(e['target']) & tvars) and roots(e['key']) & tvars:
+                if isinstance(e['key'], ast.Name) and isinstance(s.target, ast.Name) and e['key'].id == s.target.id:
+                    over = it
+                else:
+                    over = ast.fix_missing_locations(ast.copy_location(ast.ListComp(elt=copy.deepcopy(e['key']), generators=[ast.comprehension(target=copy.deepcopy(s.target), iter=copy.deepcopy(it), ifs=[], is_async=0)]), s))
+                self.res.updates.append(dict(kind='storeall' if e['op'] == 'store' else 'incall', target=e['target'], over=over, key=None, value=e['value'], op=None if e['op'] == 'store' else e['method'], node=e['node']))
+                e['_done'] = True
+        effects = [e for e in effects if not e.get('_done')]
         for e in effects:
             e['over'] = it
             e['vars'] = tnames
@@ -1181,9 +1526,13 @@ class PathEval:
     def _stmt(self, s):
         """'end' when the path ended at s"""
         self._summarised = False
+        self._fissioned = {}
         r = self._stmt0(s)
         if not self._summarised and not isinstance(s, (ast.If, ast.With, ast.Try, ast.FunctionDef, ast.AsyncFunctionDef)):
             self._invalidate_mutated(s)
+            # a list that a loop only appended to (and that was split off as a comprehension) has exactly that value after the loop
+            for k, v in self._fissioned.items():
+                self.env[k] = v
         return r
 
     def _stmt0(self, s):
@@ -1356,6 +1705,8 @@ def term_vocab(term) -> set:
                     out.add(h[1].split('.')[-1])
                 elif h[0] == 'attr':
                     out.add(h[2])
+                else:
+                    out.add('<computed callee>')      # f(...)(...) / table[k](...): which function is applied is itself computed
             elif x[0] == 'attr':
                 out.add(x[2])
             elif x[0] in ('listcomp', 'genexp', 'setcomp', 'dictcomp', 'ifexp', 'lambda', 'star'):
